@@ -397,6 +397,19 @@ def run(rep, tier):
                         law_violation("construction-independence", "%s and %s hold the same contents but are not ==" % (pool[i][0], pool[j][0]))
     for k, v in laws.items():
         rep.tally("law_instances", k, v)
+    # deep structures that differ only at the bottom (depth 150 fits the stack: the limit is ~500)
+    deep_src = ("a := [0]\nb := [1]\nc := [\"x\"]\nd := [0]\ni := 0\nwhile i < 150 {\n    a = [a]\n    b = {\"k\": b}\n    i += 1\n}\n"
+                "i = 0\nb = [1]\nwhile i < 150 {\n    b = [b]\n    c = [c]\n    d = [d]\n    i += 1\n}\n"
+                "print(a == d)\nprint(a == b)\nprint(a != b)\nprint(\"next fails\")\nprint(a == c)\n")
+    o = core.run_one({"src": deep_src})
+    rep.evaluations += 1
+    rep.process_runs += 1
+    rep.tally("single_pairs", "deep-150")
+    if o.stack_overflow or o.timeout:
+        rep.note_inconclusive("deep comparison: stack overflow/timeout")
+    elif o.crashed or o.code != 103 or o.out != b"true\nfalse\ntrue\nnext fails\n" or not (judge.Diag(o.err).ok and judge.atoms_present(judge.Diag(o.err).msg, ["int", "string"], False)):
+        rep.violation("C10/deep", "150-deep lists differing only at the bottom: expected true/false/true then a type error naming int and string; got exit %s stdout %r stderr %r" % (o.code, o.out, o.err[:160]),
+                      {"src": deep_src, "oracle": "depth-independent structural equality"})
     # error / traversal-dependent pairs, one process each
     pairs = []
     for i in range(n):
